@@ -818,10 +818,21 @@ def implements(*names):
     return deco
 
 
+def _stub_for(key):
+    """contract stubs a unit may plant for compiled back-ends (each use is part of the unit's stated assumptions)"""
+    eng = core.ENGINE
+    if eng is None:
+        return None
+    return (eng.opts.get("stubs") or {}).get(key)
+
+
 def sym_array_function(func, types_, args, kwargs):
     name = getattr(func, "__name__", None)
     mod = getattr(func, "__module__", "") or ""
     key = ("linalg." + name) if "linalg" in mod else name
+    st = _stub_for(key)
+    if st is not None and (_any_sym_args(args) or _any_sym_args(tuple(kwargs.values()))):
+        return tag(st(*args, **kwargs))
     anysym = _any_sym_args(args) or _any_sym_args(tuple(kwargs.values()))
     if anysym and key in _FUNCS:
         return tag(_FUNCS[key](*args, **kwargs))
@@ -1352,6 +1363,16 @@ def f_str(a, *args, **k):
     return "SymArray(shape=%r)" % (_np.shape(a),)
 
 
+@implements("real")
+def f_real(x):
+    return x.copy() if isinstance(x, _nd) else x
+
+
+@implements("imag")
+def f_imag(x):
+    return _np.zeros(_np.shape(x), dtype=_np.int64) if isinstance(x, _nd) else 0
+
+
 @implements("result_type")
 def f_result_type(*a):
     return _np.dtype(object)
@@ -1403,8 +1424,11 @@ class NPProxy(types.ModuleType):
                 h = _FUNCS[key]
 
                 @functools.wraps(v)
-                def dispatch(*a, **kw):
+                def dispatch(*a, _key=key, **kw):
                     if _any_sym_args(a) or _any_sym_args(tuple(kw.values())):
+                        st = _stub_for(_key)
+                        if st is not None:
+                            return tag(st(*a, **kw))
                         return tag(h(*a, **kw))
                     return v(*a, **kw)
 
